@@ -168,16 +168,21 @@ def rule_incomplete(rep: Report, repo: Repo) -> None:
     rep.rule('C17.INCOMPLETE', 'get_output raises IncompleteOutput iff a partial byte is pending and incomplete output is not allowed', 3)
     for rel, cls in PACKERS[:3]:
         go = repo.func(rel, f'{cls}.get_output')
-        _acc, cnt = _pack_names(method_outcomes(repo, rel, cls, 'write_bit'))
+        wouts = method_outcomes(repo, rel, cls, 'write_bit')
+        _acc, cnt = _pack_names(wouts)
+        # the collected-output attribute: the one the flush path of write_bit extends with the completed byte (whatever it is called)
+        sinks = sorted({k for o in wouts if cnt and f'1 + {cnt} == 8' in o.conds for k, v in o.state.items()
+                        if k not in (_acc, cnt) and _acc and f'bit << {cnt} | {_acc}' in v})
+        sink = sinks[0] if len(sinks) == 1 else 'self._output'
         outs = method_outcomes(repo, rel, cls, 'get_output')
         raising = [o for o in outs if o.result[0] == 'raise']
         returning = [o for o in outs if o.result[0] == 'return']
         ok = (cnt is not None and len(raising) == 1 and raising[0].result == ('raise', 'IncompleteOutput')
               and sorted(raising[0].conds) == sorted([f'0 != {cnt}', 'not allow_incomplete_output']) and not raising[0].state
-              and bool(returning) and all(o.result == ('return', 'self._output') and not o.state and not o.effects for o in returning)
+              and bool(returning) and all(o.result == ('return', sink) and not o.state and not o.effects for o in returning)
               and len(outs) == len(raising) + len(returning))
         rep.check(ok, 'C17.INCOMPLETE', f'{cls}.get_output', f'{[(o.conds, o.result) for o in outs]}', f'{rel}:{go.lineno}',
-                  expected=f'raise IncompleteOutput iff {cnt} != 0 and not allow_incomplete_output; else return self._output')
+                  expected=f'raise IncompleteOutput iff {cnt} != 0 and not allow_incomplete_output; else return {sink}')
 
 
 def rule_kbd(rep: Report, repo: Repo) -> None:
